@@ -28,6 +28,7 @@ func init() { register("C18", rulesC18) }
 func rulesC18(p *Prog, r *Report) {
 	r.Explanation = "Thin claim. Decides three structural necessary conditions of the accrual property and nothing numeric: (R18.1) every accrual formula scaled by elapsed seconds can succeed only behind elapsed >= 0; (R18.2) in the stability-fee and savings accrual, every success path that stores the carry tracker also refreshes and stores the position's time base, so an interval is never accrued twice by triggering twice; (R18.3) carry discipline: what is subtracted from a tracker is Dec(TruncateInt(tracker)) and that truncated amount is what is credited, with the tracker stored afterwards. NOT covered: sign/monotonicity/sub-additivity of the formulas themselves, float64 rounding, the interest-rate model (continuity at the kink, lend <= borrow rate)."
 
+	r.Assumptions = []string{"interface calls resolve to comdex implementations", "the block time is the only clock (checked by C16)"}
 	var fns []*ssa.Function
 	for _, fn := range p.Funcs {
 		m := moduleOf(fn)
